@@ -392,6 +392,7 @@ def main(run: core.Run) -> None:
         items = docexp.corpus(docs.L_FULL, 2, depth=1)
     else:
         items = docexp.corpus(docs.L_FULL, 2, depth=1, modes=(True, False)) + docexp.corpus(docs.L_EDIT, 3, nmin=3, depth=1)
+    items += docexp.class_cases(1)
     docexp.bfs(run, ORACLE, items, 'generic value properties')
     group_bfs(run, 'cost', cost_forms())
     group_bfs(run, 'txn', TXN_FORMS)
